@@ -7,7 +7,7 @@
 use crate::common::*;
 use crate::runner::*;
 
-pub const HEADER18: &str = "From Coq Require Import List Arith Bool NArith.\nFrom RB Require Import RT.Files.\nImport ListNotations.\n";
+pub const HEADER18: &str = "From Coq Require Import List Arith Bool NArith.\nFrom RB Require Import RT.Files RT.ReadInput.\nImport ListNotations.\n";
 
 #[derive(Clone, Debug)]
 enum Op {
@@ -198,6 +198,160 @@ fn longer_records(src: &str, k: usize) -> String {
     src.replace(" LEN = 8\n", " LEN = 13\n").replace(&format!("\"P{}R", k), &format!("\"Q{}R", k))
 }
 
+/// ---- read sequences over byte streams: the stream is given to the implementation as a file and as
+/// the console's input; INPUT / LINE INPUT / EOF results are compared with ReadInput.rrun in Coq and
+/// the console form with the file form.
+fn read_streams(args: &Args, rng: &mut Rng, w: &mut CaseWriter, sum: &mut Summary, evaluations: &mut usize) {
+    let alphabet: [u8; 12] = [b' ', b' ', b'a', b'b', b',', b',', 13, 10, 9, 11, b'"', b'x'];
+    let n = if args.thorough() { 3000 } else { 400 };
+    // directed streams first: every line-end form, blanks around fields, empty fields, the end of the stream
+    let directed: Vec<(&[u8], &str)> = vec![
+        (b"a,b\r\nc\r\n", "IIIE"), (b"a,b\nc\n", "IILE"), (b"a\rb\rc", "LLLE"), (b"a\r\n\r\nb", "LLLL"),
+        (b"  a  ,  b  \r\n", "IIE"), (b",,\r\n", "IIII"), (b"a", "IE"), (b"a", "LI"), (b"", "I"), (b"", "L"), (b"", "E"),
+        (b" \t a \x0b,b\r\n", "II"), (b"a,b", "LE"), (b"   ", "IE"), (b"\r\n", "IE"), (b"\n\r", "LLE"), (b"a,\r\nb", "III"),
+        (b"\"a,b\",c\r\n", "III"), (b"a b,c d\r\n", "II"), (b"x\r", "LE"), (b"x\r\r\n", "LLE"),
+    ];
+    for k in 0..(n + directed.len()) {
+        let (bytes, ops): (Vec<u8>, Vec<char>) = if k < directed.len() {
+            (directed[k].0.to_vec(), directed[k].1.chars().collect())
+        } else {
+            let len = rng.below(14) as usize;
+            let bytes: Vec<u8> = (0..len).map(|_| *rng.pick(&alphabet)).collect();
+            let n_ops = 1 + rng.below(6) as usize;
+            let ops: Vec<char> = (0..n_ops).map(|_| *rng.pick(&['I', 'I', 'L', 'L', 'E'])).collect();
+            (bytes, ops)
+        };
+        let fname = format!("RS{}T", k);
+        let _ = std::fs::remove_file(&fname);
+        if std::fs::write(&fname, &bytes).is_err() {
+            continue;
+        }
+        let mut file_prog = format!("OPEN \"{}\" FOR INPUT AS #1\n", fname);
+        let mut con_prog = String::new();
+        for o in &ops {
+            match o {
+                'I' => {
+                    file_prog.push_str("INPUT #1, A$\nPRINT \"<\"; A$; \">\"\n");
+                    con_prog.push_str("INPUT A$\nPRINT \"<\"; A$; \">\"\n");
+                }
+                'L' => {
+                    file_prog.push_str("LINE INPUT #1, A$\nPRINT \"<\"; A$; \">\"\n");
+                    con_prog.push_str("LINE INPUT A$\nPRINT \"<\"; A$; \">\"\n");
+                }
+                _ => file_prog.push_str("PRINT \"<\"; EOF(1); \">\"\n"),
+            }
+        }
+        file_prog.push_str("CLOSE\n");
+        // results: the texts between < and >, then the error code if any
+        let observe = |prog: &str, stdin: Vec<u8>| -> Result<Vec<String>, String> {
+            match run_program(prog, &RunOpts { stdin, budget: 50_000, trace: false }) {
+                Outcome::Ran(r) => {
+                    let mut res = vec![];
+                    let out = &r.stdout;
+                    let mut i = 0;
+                    while i < out.len() {
+                        if out[i] == b'<' {
+                            let j = out[i + 1..].iter().position(|c| *c == b'>').map(|j| i + 1 + j).unwrap_or(out.len());
+                            res.push(format!("RLine [{}]", out[i + 1..j].iter().map(|b| b.to_string()).collect::<Vec<_>>().join("; ")));
+                            i = j;
+                        }
+                        i += 1;
+                    }
+                    match &r.end {
+                        End::Ok => Ok(res),
+                        End::Err(c, ..) => {
+                            res.push(format!("RErr {}", c));
+                            Ok(res)
+                        }
+                        End::Panic(m) => Err(format!("panic: {}", m.chars().take(160).collect::<String>())),
+                        End::Budget => Err("budget".into()),
+                    }
+                }
+                other => Err(format!("{:?}", other).chars().take(160).collect()),
+            }
+        };
+        let one_line = format!("bytes {:?} ops {}", bytes, ops.iter().collect::<String>());
+        let file_res = observe(&file_prog, vec![]);
+        let con_res = observe(&con_prog, bytes.clone());
+        let _ = std::fs::remove_file(&fname);
+        *evaluations += 2;
+        sum.count("read_stream_programs");
+        let file_res = match file_res {
+            Ok(r) => r,
+            Err(m) => {
+                sum.violation(ImplViolation { key: "read-stream-program-failed".into(), input: one_line.clone(), expected: "a BASIC-level outcome".into(), observed: m });
+                continue;
+            }
+        };
+        // EOF prints -1 / 0: turn those results into booleans (they come from the E operations, in order)
+        let mut shown = vec![];
+        let mut it = file_res.iter();
+        let mut stopped = false;
+        for o in &ops {
+            match it.next() {
+                None => {
+                    stopped = true;
+                    break;
+                }
+                Some(r) if r.starts_with("RErr") => {
+                    shown.push(r.clone());
+                    stopped = true;
+                    break;
+                }
+                Some(r) => {
+                    if *o == 'E' {
+                        // "<-1 >" or "< 0 >"
+                        shown.push(if r == "RLine [45; 49; 32]" { "RBool true".to_string() } else if r == "RLine [32; 48; 32]" { "RBool false".to_string() } else { r.clone() });
+                    } else {
+                        shown.push(r.clone());
+                    }
+                }
+            }
+        }
+        if !stopped {
+            if let Some(r) = it.next() {
+                shown.push(r.clone());
+            }
+        }
+        let coq_bytes = format!("[{}]", bytes.iter().map(|b| b.to_string()).collect::<Vec<_>>().join("; "));
+        let coq_ops = format!("[{}]", ops.iter().map(|o| match o { 'I' => "OInput", 'L' => "OLine", _ => "OEof" }).collect::<Vec<_>>().join("; "));
+        w.push(Case {
+            agree: format!("fres_list_eqb (rrun {} {}) [{}]", coq_bytes, coq_ops, shown.join("; ")),
+            desc: format!("reads {} => [{}]", one_line, shown.join("; ")),
+            model_expr: format!("rrun {} {}", coq_bytes, coq_ops),
+        });
+        sum.nontrivial(one_line.clone());
+        // console form: the same reads without the EOF operations
+        match con_res {
+            Err(m) => sum.violation(ImplViolation { key: "read-stream-console-failed".into(), input: one_line.clone(), expected: "a BASIC-level outcome".into(), observed: m }),
+            Ok(c) => {
+                // the file results without the EOF answers, cut at the first error
+                let mut expect = vec![];
+                let mut fi = file_res.iter();
+                for o in &ops {
+                    match fi.next() {
+                        None => break,
+                        Some(r) if r.starts_with("RErr") => {
+                            expect.push(r.clone());
+                            break;
+                        }
+                        Some(r) => {
+                            if *o != 'E' {
+                                expect.push(r.clone());
+                            }
+                        }
+                    }
+                }
+                // the console echoes nothing here, but INPUT may print a prompt: results are the <...> texts only
+                if c != expect {
+                    sum.violation(ImplViolation { key: "console-vs-file:read-stream".into(), input: one_line.clone(), expected: format!("file form: {}", expect.join("; ")), observed: format!("console form: {}", c.join("; ")) });
+                }
+                sum.count("console_vs_file_read_stream");
+            }
+        }
+    }
+}
+
 pub fn run(args: &Args) {
     let mut rng = Rng::new(args.seed);
     let mut sum = Summary::new();
@@ -358,10 +512,11 @@ pub fn run(args: &Args) {
             }
         }
     }
+    read_streams(args, &mut rng, &mut w, &mut sum, &mut evaluations);
     w.flush();
     sum.write(
         &args.out,
         evaluations,
-        "seeded sequences of 4-18 operations over handles 1-3 and three text-file and three random-file names private to each program: OPEN FOR INPUT / OUTPUT / APPEND / RANDOM (LEN = 8, FIELD), PRINT #, LINE INPUT #, EOF, CLOSE #n, CLOSE, KILL, LSET+PUT, GET; generated mostly valid (a name open at most once), half of them with one protocol-violating operation appended (busy handle, missing file, closed handle, wrong mode, read past the end); every fourth program is a session on one random-access file (5-14 PUTs and GETs whose record numbers often follow one another, close, reopen, all records read back), run a second time with LEN = 13 for the same 8-character FIELD (same results expected). The program prints a marker after every operation and stops at its first error; lines read, EOF values, records read and the error code are compared with Files.frun in Coq. Non-trivial = distinct operation sequences.",
+        "seeded sequences of 4-18 operations over handles 1-3 and three text-file and three random-file names private to each program: OPEN FOR INPUT / OUTPUT / APPEND / RANDOM (LEN = 8, FIELD), PRINT #, LINE INPUT #, EOF, CLOSE #n, CLOSE, KILL, LSET+PUT, GET; generated mostly valid (a name open at most once), half of them with one protocol-violating operation appended (busy handle, missing file, closed handle, wrong mode, read past the end); every fourth program is a session on one random-access file (5-14 PUTs and GETs whose record numbers often follow one another, close, reopen, all records read back), run a second time with LEN = 13 for the same 8-character FIELD (same results expected). The program prints a marker after every operation and stops at its first error; lines read, EOF values, records read and the error code are compared with Files.frun in Coq. Then byte streams (0-13 bytes over blank, letters, comma, CR, LF, TAB, VT, quote; 21 directed ones first) with 1-6 reads (INPUT / LINE INPUT / EOF), given to the implementation as a file and as the console's input: results compared with ReadInput.rrun in Coq, console form compared with file form. Non-trivial = distinct operation sequences and distinct stream/read pairs.",
     );
 }
